@@ -92,7 +92,7 @@ def strat_conv_refined(tier):
                     st.builds(lambda k: dict(name="extrapolk", k=k), gen.f(-1, 0.6)))
     zones = st.sampled_from([[1, 1], [1, 2], [2, 1], [1, 3], [3, 2]])
     return st.builds(lambda sg, ea, L, ph, T, nm, integ, r, z, b: dict(a=sg * 10 ** ea, length=L, k=1, phase=ph, T=T, num=nm, integ=integ, x0=0.0, refined=[r, z[0], z[1]], base=b),
-                     st.sampled_from([1.0, -1.0]), gen.f(-0.5, 0.5), gen.logf(-1, 1), gen.f(0, 1), gen.f(0.3, 1.0), num, st.sampled_from(["rk3ssp", "rk4"]),
+                     st.sampled_from([1.0, -1.0]), gen.f(-0.5, 0.5), st.one_of(gen.logf(-1, 1), gen.logf(-8, 2)), gen.f(0, 1), gen.f(0.3, 1.0), num, st.sampled_from(["rk3ssp", "rk4"]),
                      st.one_of(st.sampled_from([0.5, 2.0, 3.0]), gen.logf(-0.5, 0.5)), zones, st.sampled_from([40, 50, 64]))
 
 
